@@ -11,6 +11,7 @@ import collections
 import operator
 import os
 import re
+import sys
 import warnings
 import weakref
 
@@ -168,7 +169,16 @@ class Armorable(metaclass=abc.ABCMeta):
         if m['crc'] is not None:
             m['crc'] = Header.bytes_to_int(base64.b64decode(m['crc'].encode()))
             if Armorable.crc24(m['body']) != m['crc']:
-                warnings.warn('Incorrect crc24', stacklevel=3)
+                # warnings.warn() files a warning under the line it is attributed to, and Python's default action shows
+                # each such location once: all loads through from_blob() share one line, so only the first damaged
+                # input of a process would ever be reported.  With a registry of its own every mismatch is reported
+                # (the filters of the application - ignore, error, once - still apply)
+                try:
+                    frame = sys._getframe(2)
+                except ValueError:  # pragma: no cover
+                    frame = sys._getframe(0)
+                warnings.warn_explicit('Incorrect crc24', UserWarning, frame.f_code.co_filename, frame.f_lineno,
+                                       module=frame.f_globals.get('__name__', '<unknown>'), registry={})
 
         # transferable keys may be concatenated (RFC 4880 11.1), also as armored text: the packets of every
         # further key block continue the packet sequence of the first one
